@@ -11,8 +11,8 @@ CHECKS = {
   technique="Coq proof over generated stencil tables (field/lra) + exact vm_compute correspondence",
   design="4/C19"),
  "C10": dict(
-  text="The whole Thermodynamics class (16 methods incl. setExtrapolate as a state transformer) is regenerated from thermodynamics.py by the pyrx AST translator on every run. Coq proves for EVERY free-energy table (abstract functions f, f', f'' with w>0, de/dT>0 at the range ends) and EVERY prior object state: e=Tp'-p, w=Tp', de=Tp'' at all T; cs2 = p'/e' at every T>0 including both extrapolated regions; p', p'' are the derivatives of p (derivable_pt_lim) below, inside and above the table; p, p', p'', cs2 are continuous across both ends of both phases (continuity_pt, given continuity of the table there); p = -Veff inside. Model-vs-code agreement is certified per sample by the Interval tactic; the property is also evaluated directly on the implementation with stub and traced free energies.",
-  note="Trusted: Coq kernel; Interval tactic; tools/pyrx.py + gen_thermo.py translator; harness tolerances (1e-9 rel.). Axioms: Classical_Prop.classic, ClassicalDedekindReals.sig_forall_dec/sig_not_dec, functional_extensionality_dep (Stdlib Reals). Hypotheses (external): CubicSpline and its derivative(k) are a C2 function and its derivatives; differentiability exactly AT the two junction temperatures is not claimed (continuity is).",
+  text="The whole Thermodynamics class (16 methods incl. setExtrapolate as a state transformer) is regenerated from thermodynamics.py by the pyrx AST translator on every run. Coq proves for EVERY free-energy table (abstract functions f, f', f'' with w>0, de/dT>0 at the range ends) and EVERY prior object state: e=Tp'-p, w=Tp', de=Tp'' at all T; cs2 = p'/e' at every T>0 including both extrapolated regions; p', p'' are the derivatives of p (derivable_pt_lim) at EVERY T>0: below, inside and above the table and at the two junction temperatures themselves; p, p', p'', cs2 are continuous across both ends of both phases (continuity_pt, given continuity of the table there); p = -Veff inside. Model-vs-code agreement is certified per sample by the Interval tactic; the property is also evaluated directly on the implementation with stub and traced free energies.",
+  note="Trusted: Coq kernel; Interval tactic; tools/pyrx.py + gen_thermo.py translator; harness tolerances (1e-9 rel.). Axioms: Classical_Prop.classic, ClassicalDedekindReals.sig_forall_dec/sig_not_dec, functional_extensionality_dep (Stdlib Reals). Hypotheses (external): CubicSpline and its derivative(k) are a C2 function and its derivatives.",
   technique="Coq proof over pyrx-generated model (Reals, derivable_pt_lim/continuity_pt) + certified interval evaluation",
   design="4/C10"),
 }
